@@ -59,7 +59,7 @@ def run(tier, rep):
     rng = random.Random(seed() + 8)
     q = tier == "quick"
     specs = corpus(tier, rng)
-    nseeds, ntopo = (8, 4) if q else (128, 48)
+    nseeds, ntopo = (8, 4) if q else (32, 16)
     with workdir("C08") as wd:
         res = compile_variants(specs, wd, nseeds, ntopo)
         variants = {}
@@ -80,7 +80,7 @@ def run(tier, rep):
                 rep.violation(dict(kind="seeds", clause="compiles under some hash seeds / orders and fails under others", spec=sp["yaml"], text=fails[0], family=sp["family"], tags=texts[fails[0]][:5]))
             elif fails:
                 rep.cov["rejected_by_compiler"] += 1
-            for j, t in enumerate(sorted(oks)[: (8 if q else 64)]):
+            for j, t in enumerate(sorted(oks)[: (8 if q else 24)]):
                 todo.append(dict(sp, text=t, family=sp["family"], key="%s@%s" % (sp["key"], texts[t][0]), variant_tags=texts[t][:4]))
         # every distinct text: closed (Scope) ...
         progs = [{"id": i, "yaml": sp["yaml"], "text": sp["text"], "family": sp["family"], "mode": "metrics" if sp.get("hw") else "plain"} for i, sp in enumerate(todo)]
@@ -89,7 +89,7 @@ def run(tier, rep):
         # ... and computing the oracle's tensors on identical inputs (same rng seed per specification => same input space)
         items = []
         for sp in todo:
-            items += build([sp], tier, random.Random(seed()), rep, cap=6 if q else 40)
+            items += build([sp], tier, random.Random(seed()), rep, cap=6 if q else 16)
         execpipe.run_batch(items, rep, lambda c: c.startswith(("Err:", "OutputCorrect", "OutputRestored")), wd, "c08")
         # (c) determinism within one process
         traces = []
